@@ -7,6 +7,7 @@ import (
 	"go/ast"
 	"go/token"
 	"go/types"
+	"sort"
 	"strconv"
 	"strings"
 
@@ -354,4 +355,57 @@ func splitTopLevel(s string) []string {
 		}
 	}
 	return append(out, s[start:])
+}
+
+// ruleIdTemplateVerbatim (C10): the id of a fired promise is what the schedule's template produces
+// for (schedule id, occurrence). That holds only if the engine that renders the template inserts
+// its operands verbatim: an escaping engine (html/template) or an escaping function on the way
+// rewrites ids that contain markup-significant characters. Type-resolved: every identifier of the
+// coroutine package that resolves into an escaping package is reported, whatever the import is
+// called.
+func ruleIdTemplateVerbatim(c *Ctx) {
+	m := c.coroModel()
+	if m.Err != nil {
+		c.und("model", 0, m.Err.Error())
+		return
+	}
+	escaping := map[string]string{
+		"html/template": "operands are HTML-escaped when the template is executed",
+		"html":          "escapes markup-significant characters",
+		"net/url":       "percent-encodes its operand",
+	}
+	info := m.Pk.TypesInfo
+	nText, nBad := 0, 0
+	var ids []*ast.Ident
+	for id := range info.Uses {
+		ids = append(ids, id)
+	}
+	sort.Slice(ids, func(i, j int) bool { return ids[i].Pos() < ids[j].Pos() })
+	for _, id := range ids {
+		if isTestFile(c.P, id.Pos()) {
+			continue
+		}
+		obj := info.Uses[id]
+		if obj == nil || obj.Pkg() == nil {
+			continue
+		}
+		if _, isPkgName := obj.(*types.PkgName); isPkgName {
+			continue
+		}
+		p := obj.Pkg().Path()
+		if p == "text/template" {
+			nText++
+		}
+		if why, ok := escaping[p]; ok {
+			if _, isFn := obj.(*types.Func); !isFn {
+				continue
+			}
+			nBad++
+			c.bad("id-template-verbatim/"+p+"."+obj.Name(), id.Pos(), "the coroutine package renders text through "+p+"."+obj.Name()+": "+why+", so the id of a fired promise is no longer the one the schedule's template produces for that occurrence")
+		}
+	}
+	c.count("text_template_uses", nText)
+	if nBad == 0 {
+		c.ok("id-template-verbatim", 0, fmt.Sprintf("no identifier of %s resolves into an escaping package (%d uses of text/template)", m.Pk.PkgPath, nText))
+	}
 }
